@@ -351,6 +351,270 @@ func keep%[1]d(n int) string { return fmt.Sprint("pkg", n) }
 }
 `, id, r.Intn(9)), fmt.Sprintf("\tfmt.Println(localPkg%[1]d(), strconv.Itoa(%[2]d))\n", id, r.Intn(100)), []string{"fmt", "strconv"}
 	}},
+	// every syntactic variant of the range statement (define, assign, key-only, value-only, blank, no
+	// variables; over slice, array, string, map, channel; assignable operands: field, element, *p)
+	{"range-forms", func(r *vh.Rand, id int) (string, string, []string) {
+		return fmt.Sprintf("type holder%[1]d struct{ f, g int }\n", id), fmt.Sprintf(`	xs%[1]d := []int{3, 1, %[2]d}
+	var ri%[1]d, rv%[1]d, cnt%[1]d int
+	for ri%[1]d = range xs%[1]d {
+	}
+	fmt.Println("key-only assign", ri%[1]d)
+	for ri%[1]d, rv%[1]d = range xs%[1]d {
+	}
+	fmt.Println("key-value assign", ri%[1]d, rv%[1]d)
+	ri%[1]d = -1
+	for _, rv%[1]d = range xs%[1]d[:2] {
+	}
+	fmt.Println("value-only assign", ri%[1]d, rv%[1]d)
+	for range xs%[1]d {
+		cnt%[1]d++
+	}
+	for i := range xs%[1]d {
+		cnt%[1]d += i
+	}
+	for _, v := range xs%[1]d {
+		cnt%[1]d += v
+	}
+	for i, v := range xs%[1]d {
+		cnt%[1]d += i * v
+	}
+	for _ = range xs%[1]d {
+		cnt%[1]d++
+	}
+	fmt.Println("counts", cnt%[1]d)
+	arr%[1]d := [4]string{"a", "b", "c", "d"}
+	for ri%[1]d = range arr%[1]d {
+	}
+	for i, s := range arr%[1]d {
+		fmt.Print(i, s, " ")
+	}
+	fmt.Println("array", ri%[1]d)
+	str%[1]d := "héy!"
+	var h%[1]d holder%[1]d
+	for h%[1]d.f = range str%[1]d {
+	}
+	var rc%[1]d rune
+	for h%[1]d.g, rc%[1]d = range str%[1]d {
+	}
+	var idx%[1]d [2]int
+	for idx%[1]d[1] = range xs%[1]d {
+	}
+	pp%[1]d := &ri%[1]d
+	for *pp%[1]d = range str%[1]d {
+	}
+	fmt.Println("string/field/elem/deref", h%[1]d, string(rc%[1]d), idx%[1]d, ri%[1]d)
+	m%[1]d := map[string]int{"only": %[2]d}
+	var mk%[1]d string
+	for mk%[1]d = range m%[1]d {
+	}
+	fmt.Println("map key-only", mk%[1]d)
+	for mk%[1]d, rv%[1]d = range m%[1]d {
+	}
+	for k, v := range m%[1]d {
+		fmt.Println("map", k, v, mk%[1]d, rv%[1]d)
+	}
+	ch%[1]d := make(chan int, 3)
+	ch%[1]d <- 7
+	ch%[1]d <- %[2]d
+	close(ch%[1]d)
+	for rv%[1]d = range ch%[1]d {
+		fmt.Println("chan assign", rv%[1]d)
+	}
+	var nilxs%[1]d []string
+	for ri%[1]d = range nilxs%[1]d {
+	}
+	fmt.Println("after empty range", ri%[1]d)
+`, id, r.Intn(50)), []string{"fmt"}
+	}},
+	// every assignment operator and inc/dec on every kind of operand
+	{"assign-ops", func(r *vh.Rand, id int) (string, string, []string) {
+		return fmt.Sprintf("type cell%[1]d struct{ n int }\n", id), fmt.Sprintf(`	a%[1]d, u%[1]d, f%[1]d, s%[1]d := %[2]d, uint8(%[3]d), 1.5, "s"
+	a%[1]d += 3
+	a%[1]d -= 1
+	a%[1]d *= 5
+	a%[1]d /= 2
+	a%[1]d %%= 7
+	a%[1]d <<= 3
+	a%[1]d >>= 1
+	a%[1]d |= 0x10
+	a%[1]d &= 0x1f
+	a%[1]d ^= 5
+	a%[1]d &^= 1
+	a%[1]d++
+	u%[1]d += 200
+	u%[1]d <<= 1
+	u%[1]d--
+	u%[1]d ^= 0xff
+	f%[1]d *= 2
+	f%[1]d -= 0.25
+	f%[1]d /= 2
+	f%[1]d++
+	s%[1]d += "t"
+	s%[1]d += s%[1]d
+	fmt.Println(a%[1]d, u%[1]d, f%[1]d, s%[1]d)
+	el%[1]d := []int{1, 2, 3}
+	c%[1]d := &cell%[1]d{4}
+	mm%[1]d := map[string]int{"k": 1}
+	pi%[1]d := &a%[1]d
+	el%[1]d[1] += 10
+	el%[1]d[2]++
+	el%[1]d[0] <<= 2
+	c%[1]d.n *= 3
+	c%[1]d.n--
+	mm%[1]d["k"] += 5
+	mm%[1]d["new"]++
+	mm%[1]d["k"] &^= 2
+	*pi%[1]d += 100
+	(*pi%[1]d)++
+	(a%[1]d) = a%[1]d + 1
+	(el%[1]d[0])--
+	fmt.Println(el%[1]d, *c%[1]d, mm%[1]d, a%[1]d)
+`, id, r.Intn(50), r.Intn(100)), []string{"fmt"}
+	}},
+	// every binary/unary operator incl. bitwise and shifts, printed with MINIMAL parentheses so that
+	// precedence and associativity decide the tree
+	{"operator-precedence", func(r *vh.Rand, id int) (string, string, []string) {
+		var b strings.Builder
+		fmt.Fprintf(&b, "\tvar pa%[1]d, pb%[1]d, pc%[1]d, pd%[1]d uint32 = %[2]d, %[3]d, %[4]d, %[5]d\n\tvar pe%[1]d, pf%[1]d int = %[6]d, %[7]d\n", id, 1+r.Intn(200), 1+r.Intn(60000), 3+r.Intn(9), 0xf0f0+r.Intn(100), 5+r.Intn(40), -3-r.Intn(20))
+		us := []string{fmt.Sprintf("pa%d", id), fmt.Sprintf("pb%d", id), fmt.Sprintf("pc%d", id), fmt.Sprintf("pd%d", id)}
+		is := []string{fmt.Sprintf("pe%d", id), fmt.Sprintf("pf%d", id)}
+		for k := 0; k < 10; k++ {
+			vars := us
+			if k%3 == 2 {
+				vars = is
+			}
+			e1, _ := precExpr(r, vars, 3)
+			e2, _ := precExpr(r, vars, 2)
+			fmt.Fprintf(&b, "\tfmt.Println(%d, %s, %s %s %s)\n", k, e1, e1, []string{"<", "==", "!=", ">="}[r.Intn(4)], e2)
+		}
+		e3, _ := precExpr(r, us, 2)
+		e4, _ := precExpr(r, us, 2)
+		e5, _ := precExpr(r, is, 2)
+		fmt.Fprintf(&b, "\tfmt.Println(%s < %s || %s > 0 && !(%s == %s), -%s, ^%s, +%s, !(%s != %s))\n", e3, e4, e5, e3, e4, is[0], us[0], is[1], e4, e3)
+		return "", b.String(), []string{"fmt"}
+	}},
+	// switch in all its forms, minimal select, order of defers and recover
+	{"switch-select-forms", func(r *vh.Rand, id int) (string, string, []string) {
+		return fmt.Sprintf(`func sw%[1]d(x int, s string) (out []string) {
+	defer func() {
+		if e := recover(); e != nil {
+			out = append(out, fmt.Sprint("recovered:", e))
+		}
+	}()
+	defer func() { out = append(out, "d1") }()
+	defer func() { out = append(out, "d2") }()
+	switch {
+	}
+	switch x {
+	}
+	switch y := x * 2; {
+	case y > 10:
+		out = append(out, "big")
+		fallthrough
+	case y > 100:
+		out = append(out, "fell")
+	default:
+		out = append(out, "small")
+	}
+	switch y := x %% 3; y {
+	default:
+		out = append(out, "dflt-first")
+	case 0, 1:
+		out = append(out, "01")
+		if x > 4 {
+			break
+		}
+		out = append(out, "after-break")
+	}
+	switch s {
+	case "a", "b":
+		out = append(out, "ab")
+	case s + "":
+		out = append(out, "self")
+	}
+	switch f := func() int { return x }; f() {
+	case 1:
+		out = append(out, "one")
+	}
+	ch := make(chan string, 1)
+	select {
+	case v := <-ch:
+		out = append(out, v)
+	default:
+		out = append(out, "empty")
+	}
+	ch <- s
+	select {
+	case v, ok := <-ch:
+		out = append(out, v, fmt.Sprint(ok))
+	}
+	select {
+	case ch <- "sent":
+		out = append(out, "send-ok")
+	default:
+	}
+	if x == 7 {
+		panic("seven")
+	}
+	return out
+}
+`, id), fmt.Sprintf("\tfmt.Println(sw%[1]d(%[2]d, \"a\"))\n\tfmt.Println(sw%[1]d(7, \"zz\"))\n\tfmt.Println(sw%[1]d(%[3]d, \"\"))\n", id, r.Intn(6), 50+r.Intn(9)), []string{"fmt"}
+	}},
+}
+
+var precOps = []struct {
+	op   string
+	prec int
+}{{"*", 5}, {"/", 5}, {"%", 5}, {"<<", 5}, {">>", 5}, {"&", 5}, {"&^", 5}, {"&^", 5}, {"+", 4}, {"-", 4}, {"|", 4}, {"|", 4}, {"^", 4}}
+
+// precExpr builds a random integer expression over vars and returns it printed with minimal
+// parentheses, together with the precedence of its top operator (6 = atom / unary).
+func precExpr(r *vh.Rand, vars []string, depth int) (string, int) {
+	if depth <= 0 || r.Chance(20) {
+		v := vars[r.Intn(len(vars))]
+		switch r.Intn(8) {
+		case 0:
+			return "^" + v, 6
+		case 1:
+			return "-" + v, 6
+		case 2:
+			return fmt.Sprint(1 + r.Intn(9)), 6
+		}
+		return v, 6
+	}
+	o := precOps[r.Intn(len(precOps))]
+	l, lp := precExpr(r, vars, depth-1)
+	var rs string
+	var rp int
+	switch o.op {
+	case "/", "%":
+		// divisor never zero: (x | 1) is an atom
+		x, _ := precExpr(r, vars, depth-2)
+		rs, rp = "("+x+" | 1)", 6
+	case "<<", ">>":
+		x, _ := precExpr(r, vars, depth-2)
+		rs, rp = "("+x+" & 7)", 6
+	default:
+		rs, rp = precExpr(r, vars, depth-1)
+	}
+	isLit := func(x string) bool { return len(x) == 1 && x[0] >= '0' && x[0] <= '9' }
+	if isLit(l) && (isLit(rs) || rp == 6 && strings.HasPrefix(rs, "(")) {
+		l = vars[r.Intn(len(vars))] // never two constant operands (constant folding / overflow is compile time)
+	}
+	if lp < o.prec {
+		l = "(" + l + ")"
+	}
+	if rp <= o.prec && rp != 6 { // left associative: equal precedence on the right needs parentheses
+		rs = "(" + rs + ")"
+	}
+	sp := " "
+	if o.prec == 5 && r.Chance(50) {
+		sp = "" // gofmt style: tighter binding written without blanks
+	}
+	if sp == "" && (strings.HasPrefix(rs, "-") || strings.HasPrefix(rs, "^") || strings.HasPrefix(rs, "+")) {
+		sp = " "
+	}
+	return l + sp + o.op + sp + rs, o.prec
 }
 
 // panicking tails: the program ends with one of these (exit status and panic value compared).
@@ -399,13 +663,47 @@ func ExtNames() []string {
 	return ns
 }
 
+// GenGoExtNamed assembles the named snippets (in order; a name may repeat) and the normal-exit tail.
+func GenGoExtNamed(r *vh.Rand, names []string) string {
+	imports := map[string]bool{"fmt": true, "os": true}
+	var decls, body strings.Builder
+	for i, n := range names {
+		for _, sn := range extSnippets {
+			if sn.name == n {
+				d, b, im := sn.gen(r, 50+i)
+				decls.WriteString(d)
+				if d != "" {
+					decls.WriteString("\n")
+				}
+				body.WriteString(b)
+				for _, x := range im {
+					imports[x] = true
+				}
+			}
+		}
+	}
+	var imps []string
+	for x := range imports {
+		imps = append(imps, x)
+	}
+	sortStrings(imps)
+	var out strings.Builder
+	out.WriteString("package main\n\nimport (\n")
+	for _, x := range imps {
+		fmt.Fprintf(&out, "\t%q\n", x)
+	}
+	out.WriteString(")\n\n" + decls.String() + "\nfunc main() {\n" + body.String())
+	out.WriteString("\tif len(os.Args) > 5 {\n\t\tos.Exit(9)\n\t}\n}\n")
+	return out.String()
+}
+
 // GenGoExt generates an extended (unmodelled) Go main program out of k snippets and one tail.
 func GenGoExt(r *vh.Rand, k int) (src string, names []string) {
 	imports := map[string]bool{}
 	var decls, body strings.Builder
 	perm := r.Intn(len(extSnippets))
 	for i := 0; i < k; i++ {
-		s := extSnippets[(perm+i*7)%len(extSnippets)]
+		s := extSnippets[(perm+i*7)%len(extSnippets)] // 19 snippets: stride 7 is coprime
 		d, b, im := s.gen(r, i+1)
 		decls.WriteString(d)
 		if d != "" {
